@@ -1,0 +1,12 @@
+//go:build verif
+
+// Contracts for package vconfig, read by /verif/gocv.
+package vconfig
+
+//@ func PubkeyID
+//@   trusted   -- hex of the serialized public key: an uninterpreted function of the key (external crypto/hex)
+//@   ensures result == pubkeyID(ref(pub))
+
+//@ func VbftBlock
+//@   trusted   -- encoding/json decoding of the consensus payload: result is a function of the payload, nothing is modified
+//@   ensures r1 == nil ==> r0 != nil
